@@ -8,7 +8,7 @@ META = dict(
     note="Trusted: hook placement (per-IP events under cc.lock, worker admission/release under wp.lock, atomic counters logged after increment / before decrement), goroutine-to-connection attribution in the harness, TLC, Go runtime. A logged tryAcquireConcurrency failure is accepted without its guard (log order of atomics is not exact). GetOpenConnectionsCount is read while exactly one Serve is listening; on ServeConn-only servers the balance s.open = 0 is asserted instead (the getter returns -1 there by construction). Real-code schedules are sampled, not exhaustive.",
 )
 
-QUICK_CFGS = ["serve:2:1", "serve:1:2", "serve:2:0", "sc:2:1", "sc:1:2", "sc:2:2"]
+QUICK_CFGS = ["serve:2:1", "serve:1:2", "serve:2:0", "sc:2:1", "sc:1:2"]
 ALL_CFGS = ["%s:%d:%d" % (e, c, m) for e in ("serve", "sc") for c in (1, 2, 3) for m in (0, 1, 2)]
 
 
@@ -20,7 +20,7 @@ def run(ctx):
                        consts={"CONNS": conns, "MAXIP": maxip, "LISTEN": listen, "ENTRIES": entries},
                        workers=8, timeout=3000)
     cfgs = ctx.pick(QUICK_CFGS, ALL_CFGS)
-    ntr = ctx.pick(14, 150)
+    ntr = ctx.pick(40, 300)
     recs = ctx.go_test(".", ["c12_"], "^TestVerifC12Limits$", timeout=2400,
                        env={"VERIF_C12_TRACES": ntr, "VERIF_C12_CFGS": ",".join(cfgs)})
     ctx.absorb(recs)
